@@ -55,6 +55,12 @@ DONE = {
  "C14": ("compile-time check of a separate downstream crate + property-based differential testing of the recorded decomposition (signed moments up to degree 2, face triangles) against the brute-force reference cell; data delivery under generated masks; default and sequential builds of the library",
          "Exploration: 3 000 (quick) / 100 000 (thorough) generated inputs x masks per build (rayon and sequential), all dimensionalities, periodic or not, 3D also through with_faces(); every constructed cell's tetrahedra and every face's base triangles are recorded by trait implementations living in /verif/downstream.",
          "Trusted: the harness' reference model and the orientation rule as documented; by linearity the 10 monomials decide all polynomial integrands of degree <= 2, higher degrees are not exercised. Exempt: with_faces() integrals of ill-conditioned cells (known finding).", "5 C14"),
+ "C09": ("property-based differential testing, bitwise: the default (rayon) build under generated pool sizes (1..64 threads), repetitions and seeded per-cell delays (hook set_jitter, completion order logged) against the sequential build of the library running as a separate process",
+         "Exploration of schedules, not enumeration: 400 (quick) / 6000 (thorough) generated inputs x masks, each run in 5 (thorough: 9) explicit rayon pools with jitter off (twice) and 2 (thorough: 4) seeded jitter settings, about 8000 (quick) parallel runs compared section by section with the sequential build; the evidence counts the distinct completion orders observed (thousands).",
+         "Trusted: nothing beyond the harness. Limits (DESIGN.md section 6): rayon's work-stealing decisions cannot be owned by a test; a data race that leaves results intact is invisible; the jitter hook delays the build loops only.", "5 C09, 6"),
+ "C11": ("property-based differential testing across four builds of the same binary (big-integer backends ibig, dashu, malachite, num_bigint as separate processes), bitwise, plus exhaustive small-grid tuples and an independent determinant",
+         "Exploration with an exhaustively enumerated sub-space: 1500 (quick) / 60 000 (thorough) degenerate-weighted inputs (exact path taken in about half of them) each with 8 integer 5-tuples; all 8^5 (quick) / 27^5 (thorough) 5-tuples of a small grid at two offsets; tessellation dumps, exact-call counters and predicate signs compared across all four backends and with the harness' determinant.",
+         "Trusted: the harness' Bareiss determinant (C10). rug cannot be built offline and is not compared.", "5 C11"),
 }
 NOT_YET = "check under construction (work in progress; see DESIGN.md section 5)"
 ALL = ["C%02d" % i for i in range(1, 21)]
